@@ -11,17 +11,29 @@ MANIFEST_TEXT = ("Lean 4 theorems, for all operation histories, all element valu
                  "over interleaved histories of two instances with copies in both directions and self-assignment, for "
                  "ReservedVector against a nondeterministic specification in which only elements uncovered by a growing "
                  "resize are unspecified; ArrayList iterator stability under any number of push_backs, lru no-duplicate-keys, "
-                 "SLList self-assignment identity); the models are run against the real classes on >= 6000 random histories "
-                 "per run (every op observed on every instance: size, empty, front/back, full forward/backward/const "
-                 "iteration, comparisons, find, held iterators) with std::deque/list/vector/bitset/map shadow oracles "
-                 "deciding the property itself under ASan/UBSan.")
+                 "SLList self-assignment identity; BitSetVector block operations = machine operations on the number the block "
+                 "stands for, block<->number conversion lossless at every width and a conversion through a W-bit word exact "
+                 "iff B <= W); the models are run against the real classes on >= 6000 random histories per run, compiled in "
+                 "two build configurations (all checks on: asserts + DUNE_CHECK_BOUNDS + CHECK_RESERVEDVECTOR; release: NDEBUG) "
+                 "and for template parameters on both sides of every boundary where behaviour can change (block sizes "
+                 "1..129 around the 32/64/128-bit word boundaries of std::bitset, chunk sizes incl. powers of two and the "
+                 "default 100, capacities up to 65) (every op observed on every instance: size, empty, front/back, full "
+                 "forward/backward/const iteration, comparisons, find, held iterators, every view of a bit block) with "
+                 "std::deque/list/vector/bitset/map shadow oracles deciding the property itself under ASan/UBSan.")
 MANIFEST_NOTE = ("Trusted: Lean kernel (+propext/Classical.choice/Quot.sound), the hand-written models' fidelity (checked by "
-                 "differential execution only), harness/cxx_c11.cc and Driver/C11.lean parsing/printing, libstdc++ containers as "
-                 "oracle, g++/ASan/UBSan. Pointer structure of SLList/lru is abstracted to node ids; the models have value "
-                 "semantics, so 'a copy shares nothing with its original' is true of the models by construction and is decided "
-                 "for the real classes by the two-instance harness only; allocator interplay is only exercised (counting "
-                 "allocator), not modelled. ReservedVector slots uncovered by resize()/the count constructor are unspecified; "
-                 "the protocol assigns them right after the call, so they are never compared.")
+                 "differential execution only), harness/cxx_c11.cc + cxx_c11_rel.cc + c11_containers.hh and Driver/C11.lean "
+                 "parsing/printing, libstdc++ containers as oracle, g++/ASan/UBSan. Pointer structure of SLList/lru is "
+                 "abstracted to node ids; the models have value semantics, so 'a copy shares nothing with its original' is "
+                 "true of the models by construction and is decided for the real classes by the two-instance harness only; "
+                 "allocator interplay is only exercised (counting allocator), not modelled. ReservedVector slots uncovered by "
+                 "resize()/the count constructor are unspecified; the protocol assigns them right after the call, so they are "
+                 "never compared. The model is the same for both build configurations (the header token `rel` only selects "
+                 "the binary's release build of the headers); that an out-of-range access throws in the checked build is not "
+                 "part of the property and not checked. Template parameters are a finite sample chosen by region (word "
+                 "boundaries of std::bitset, powers of two, the defaults); element type int and std::allocator only - no "
+                 "statement of the five headers depends on them. Both translation units are compiled at -O0 -g1 and UBSan "
+                 "without null/alignment/vptr/pointer-overflow/object-size (compile time; ASan still catches null and wild "
+                 "accesses).")
 TECHNIQUE = "Lean 4 refinement proofs (invariant + induction over operation histories) + differential correspondence with std:: shadow oracles"
 TRANSLATORS = []
 HARNESS = dict(
@@ -35,17 +47,25 @@ HARNESS = dict(
     # keep the compile of both units at ~30 s; signed overflow, shifts, bounds, bool, enum, ... and ASan stay on
     flags=["-O0", "-g1", "-fno-sanitize=null,alignment,vptr,pointer-overflow,object-size,nonnull-attribute,returns-nonnull-attribute"],
 )
-RULE = ("cases: one random operation history (0..40 ops quick, ..60 thorough) per line over ArrayList<int,N> N in {0,1,2,3,4,7} "
-        "(two instances; copy construction/assignment both ways, self-assignment), SLList<int> (two instances + modify "
-        "iterator + converting copy to SLList<long>), ReservedVector<int,n> n in {1,2,4,7} (two instances), BitSetVector<B> B in "
-        "{1,3,8,33} (incl. construction from vector<bool> of fitting / non-fitting length), lru<int,int> (two instances with "
-        "copies); erase positions aimed at chunk boundaries +-1, bursts of pushes across chunk boundaries, iterators held "
-        "across pushes, equal keys, full/empty containers, ~2% ops outside their precondition (skipped on both sides); "
-        "thorough adds all words of length 6 (ArrayList N=1,2,3) / 5 (SLList, lru, two-list ArrayList N=2,3 and two-cache lru "
-        "with copies) over small op alphabets; distinct = distinct op lines; non-trivial = at least one op executed")
+RULE = ("cases: one random operation history (0..40 ops quick, ..60 thorough; ..16 for block sizes >= 100) per line over "
+        "ArrayList<int,N> N in {0,1,2,3,4,7,8,16,100} (two instances; copy construction/assignment both ways, self-assignment; "
+        "pushn = k appends in one op so that 100-element chunks are filled exactly / crossed), SLList<int> (two instances + "
+        "modify iterator + converting copy to SLList<long>), ReservedVector<int,n> n in {1,2,4,7,16,65} (two instances; sizes "
+        "biased to n, n-1), BitSetVector<B> B in {1,3,8,32,33,63,64,65,100,128,129} (incl. construction from vector<bool> of "
+        "fitting / non-fitting length; bit positions, one-bit operands and shift counts biased to 0,31,32,63,64,65,127,128,B-1; "
+        "operands with only the bits >= 64 / < 64), lru<int,int> (two instances with copies); a third of the histories (header "
+        "token `rel`) run against the release build of the headers (NDEBUG, no bounds checks), the rest against the build "
+        "with asserts, DUNE_CHECK_BOUNDS and CHECK_RESERVEDVECTOR; erase positions aimed at chunk boundaries +-1, bursts of "
+        "pushes across chunk boundaries, iterators held across pushes, equal keys, full/empty containers, ~2% ops outside "
+        "their precondition (skipped on both sides); thorough adds all words of length 6 (ArrayList N=1,2,3) / 5 (SLList, lru, "
+        "two-list ArrayList N=2,3 and two-cache lru with copies) / 4 (BitSetVector<65>: bit writes at the word boundary, shifts "
+        "by 1/64, block-to-block ops) / 3 (BitSetVector<129>, release build) over small op alphabets; distinct = distinct op "
+        "lines; non-trivial = at least one op executed")
 ASSUMPTIONS = [
     "the Lean models lean/DuneVerif/Model/C11/*.lean are hand-written; their fidelity to the headers rests on this differential run",
-    "element type int, key type int; the theorems are generic in the element/key type",
+    "element type int, key type int; the theorems are generic in the element/key type (no statement of the headers branches on the type)",
+    "template parameters N, n, B are sampled by region (see RULE); the theorems hold for all values",
+    "the two build configurations (checks on / NDEBUG release) are expected to behave identically on histories inside the preconditions; one model serves both",
     "SLList is instantiated with a counting allocator providing allocate(n, hint) (std::allocator lost it in C++20, push_front needs it)",
     "operations outside their documented precondition (undefined behaviour / failing assert in C++) are not executed",
 ]
